@@ -710,7 +710,8 @@ class Ref(object):
             self.out.append((n, 'close'))
             return
         cls = r['cls']
-        lost = 'table-part-context-background-lost' in self.quirks and cls in ('TableRowBox', 'TableRowGroupBox')
+        lost = ('table-part-context-background-lost' in self.quirks and cls in ('TableRowBox', 'TableRowGroupBox')) or \
+            ('grid-context-background-lost' in self.quirks and cls in ('GridBox', 'InlineGridBox'))
         if cls not in ('InlineBox', 'PageBox') and not lost:
             self.emit(n, 'bg')
             self.emit(n, 'border' if cls != 'TableCellBox' else 'cell-border')
@@ -1188,7 +1189,26 @@ def prepare_tokens(page_rec, order, quirks=()):
 
 
 QUIRKS = ('z-index-on-non-positioned', 'table-part-context-background-lost', 'collapsed-cell-context-border',
-          'hidden-table-collapsed-borders')
+          'hidden-table-collapsed-borders', 'grid-context-background-lost')
+
+
+def ink_rows(boxes):
+    """per box [background, border as draw_border paints it, text, border as CSS prescribes] colour numbers (-1: no
+    ink) - the tables of the Coq display judge"""
+    rows = []
+    for n, r in enumerate(boxes):
+        vis = r['visible']
+        bg = colour_index(r['bgcolor']) if (vis and r['bgcolor'] and r['bgcolor'][3] > 0 and not r.get('bg_to_canvas')
+                                            and r['cls'] != 'PageBox') else None
+        tx = colour_index(r['color']) if (vis and r['cls'] == 'TextBox' and r.get('text', '').strip()) else None
+        drawn = [s_ for s_ in 'trbl' if (r['b' + s_] or 0) > 0 and r['bc' + s_] and r['bc' + s_][3] > 0]
+        styled = [s_ for s_ in drawn if r['bs' + s_] not in ('none', 'hidden')]
+        collapsed_table = r['cls'] in ('TableBox', 'InlineTableBox') and r.get('collapse')
+        cell_in_collapsed = r['cls'] == 'TableCellBox' and in_collapsed_table(boxes, n)
+        bm = colour_index(r['bc' + drawn[0]]) if (vis and drawn and not collapsed_table) else None
+        bs = colour_index(r['bc' + styled[0]]) if (vis and styled and not collapsed_table and not cell_in_collapsed) else None
+        rows.append([-1 if v is None else v for v in (bg, bm, tx, bs)])
+    return rows
 
 
 def describe(boxes, n):
@@ -1250,8 +1270,325 @@ def judge_doc(case):
                                        'hid', 'rcl', 'bits', 'cls')}, b['kids']] for b in boxes],
             out=pg['out'], identity=pg['identity'], observed=observed,
             paints=[[n, role, col if not isinstance(col, tuple) else list(col)] for n, role, col in tokens],
-            vis=[[bool(b['visible']),
-                  (colour_index(b['bgcolor']) if b['bgcolor'] and b['bgcolor'][3] > 0 and not b.get('bg_to_canvas') else None),
-                  None, None] for b in boxes],
+            inkrows=ink_rows(boxes),
             head=len(head)))
     return res
+
+
+# =====================================================================================================
+#  check / replay
+# =====================================================================================================
+
+WITNESSES = {
+    # the witnesses of the refuted theorems of props/C17.v, as documents (replayed on the implementation)
+    'table-part-context-background-lost':
+        '<table id="e2" style="background:#700"><tr id="e3" style="opacity:.5;background:#a00">'
+        '<td id="e4" style="background:#d00;color:#e00">ab</td></tr></table>',
+    'grid-context-background-lost':
+        '<div id="e2" style="display:grid;background:#700;border:2px solid #900;opacity:.5">'
+        '<div id="e3" style="background:#a00;color:#b00">ab</div></div>',
+    'z-index-on-non-positioned':
+        '<div id="e2" style="height:10px;background:#700"></div>'
+        '<div id="e3" style="height:10px;background:#a00;opacity:.9;z-index:-1;margin-top:-5px"></div>'
+        '<div id="e4" style="height:10px;background:#d00;margin-top:-5px"></div>',
+}
+WITNESS_CSS = ('<style>@page{size:100px;margin:0}html{background:none}body{margin:0;font-family:weasyprint;'
+               'font-size:10px;line-height:10px;color:#500}table{border-spacing:0}td{padding:0}</style>')
+
+
+def page_box_term(nodes):
+    return box_term(nodes, 0)
+
+
+def ink_tables(pg):
+    """(model table, spec table) as Coq terms: box id -> (bg, border, text) colour numbers, -1 = no ink."""
+    tm, ts = [], []
+    for n, row in enumerate(pg['inkrows']):
+        tm.append('(%d, (%d, %d, %d))' % (n, row[0], row[1], row[2]))
+        ts.append('(%d, (%d, %d, %d))' % (n, row[0], row[3], row[2]))
+    return '[%s]' % '; '.join(tm), '[%s]' % '; '.join(ts)
+
+
+def parse_pairs_lists(out):
+    """'= [[(1, 4%nat); ...]; [...]] : list (list (Z * nat))' -> [[(1, 4), ...], ...]"""
+    import re
+    m = re.search(r'=\s*(\[.*\])\s*:\s*list', out, re.S)
+    if not m:
+        return None
+    txt = re.sub(r'\s+', '', m.group(1))
+    inner = txt[1:-1]
+    res = []
+    for part in re.findall(r'\[(.*?)\]', inner):
+        res.append([(int(a), int(b)) for a, b in re.findall(r'\((-?\d+),(\d+)%nat\)', part)])
+    return res
+
+
+def coq_why(tag, cases, fn):
+    """Evaluate fn (returning list (Z * nat)) on a few cases inside Coq, for diagnostics / classification."""
+    d = os.path.join(common.WORK, tag)
+    os.makedirs(d, exist_ok=True)
+    path = os.path.join(d, 'Why.v')
+    with open(path, 'w') as f:
+        f.write(PRE + 'Definition cs := [\n%s].\nEval vm_compute in map (%s) cs.\n' % (';\n'.join(cases), fn))
+    rc, out = common.sh('coqc -Q %s WV %s' % (common.COQ, path), cwd=d, timeout=300)
+    if rc != 0:
+        return None
+    return parse_pairs_lists(out)
+
+
+def expected_lost(nodes):
+    """boxes whose background the known table-part / grid defects lose: out-of-flow rows, row groups and the
+    in-flow cells (rows) below them; grid containers painted as contexts."""
+    def ctxish(i):
+        return (i['pos'] != 'static' or i['flt'] or i['opa'] or i['trf'] or i['ovf'] or
+                ((i['pos'] != 'static' or i['git']) and i['z'] is not None))
+    lost_rows, lost_grid = set(), set()
+    def walk(n, under):
+        info, kids = nodes[n]
+        here = under
+        if info['kind'] in ('KRow', 'KRowGroup') and ctxish(info):
+            lost_rows.add(n)
+            here = True
+        elif under and info['kind'] in ('KRow', 'KCell') and not ctxish(info):
+            lost_rows.add(n)
+        elif info['kind'] not in ('KRow', 'KRowGroup', 'KCell'):
+            here = False
+        if info['kind'] in ('KGrid', 'KInlineGrid') and (ctxish(info) or info['kind'] == 'KInlineGrid'):
+            lost_grid.add(n)
+        for k in kids:
+            walk(k, here if info['kind'] in ('KRow', 'KRowGroup') else False)
+    walk(0, False)
+    return lost_rows, lost_grid
+
+
+def fail_signed(run, what, data, clause):
+    """clause -> run.fail with the registered signature(s); unknown clauses are plain violations."""
+    if clause.startswith('paint-order:'):
+        for q in clause.split(':', 1)[1].split('+'):
+            run.fail('%s [%s]' % (what, q), data, signature='c17:' + q)
+    elif clause == 'overflow-clips-escaping-abspos':
+        run.fail(what, data, signature='c17:overflow-clips-escaping-abspos')
+    else:
+        run.fail(what, data, signature=None)
+
+
+def check(run):
+    rng = random.Random(run.seed * 7919 + 17)
+    thorough = run.tier == 'thorough'
+    common.prove(run, 'C17', ['model/C17Judge.vo', 'proofs/C17_examples.vo'])
+    run.trusted += ['Coq 8.16.1 kernel (coqc); vm_compute for the cases.v evaluation',
+                    'harness/pdfread.py (PDF reader) + the content-stream interpreter, reference painter and geometry '
+                    'judge of harness/p_c17.py (Python)',
+                    'the abstraction box -> info of harness/impl_c17.py (class tables cross-checked inside Coq)',
+                    'CPython list.sort is stable (modelled by a stable insertion sort)']
+    run.assumptions += [
+        'overflow != visible is taken as forming a stacking context (WeasyPrint model; CSS 2.1 does not say so)',
+        'draw_background / draw_border / draw_text internals, column backgrounds of tables, marked content and '
+        'mask borders are not modelled in Coq: monitored on the display list (geometry judge in Python)',
+        'border-radius geometry, dashed/dotted segmenting and replaced content: not generated',
+        'painted-exactly-once at the level of paint events is proved structurally (partition + alias lists) and '
+        'judged inside Coq on every real tree; it is not proved for the paint list of arbitrary trees']
+
+    # ---------------------------------------------------------------- stream 1: from_box on synthetic trees
+    n_synth = 2500 if thorough else 500
+    trees = [gen_synth(rng, rng.choice([6, 12, 25, 40])) for _ in range(n_synth)]
+    outs = common.run_impl('impl_c17', 'stacking_synth', [{'tree': t} for t in trees])
+    kinds = {c: k for c, k, _ in SYNTH_CLASSES}
+    cases, kept = [], []
+    for t, (st, o) in zip(trees, outs):
+        if st != 'ok':
+            run.fail('StackingContext.from_box raised on a synthetic tree', {'stream': 'frombox-synth', 'tree': t, 'outcome': o},
+                     signature=None)
+            continue
+        nodes = synth_nodes(t)
+        cases.append('(%s, %s, %s)' % (box_term(nodes), pnode_term(nodes, o['out']),
+                                        bits_term([(kinds[c], b) for c, b in o['bits'].items()])))
+        kept.append((t, o, nodes))
+    try:
+        masks = common.eval_cases('c17synth', PRE, 'box * pnode * list (kind * Z)', cases, 'frombox_judge', per_file=60)
+        mism = [k for k, m in zip(kept, masks) if m & 1]
+        ident = [k for k in kept if not k[1]['identity']]
+        run.oblige('corr:frombox-synth(model from_box = StackingContext.from_box, class tables)', not mism and not ident,
+                   'first disagreement: %s' % (json.dumps(mism[0][0])[:1500] if mism else ident[:1]))
+        for (t, o, nodes), m in zip(kept, masks):
+            if m & 2:
+                run.fail('paint list of the real context differs from Appendix E on a well-formed synthetic tree',
+                         {'stream': 'frombox-synth', 'tree': t})
+                break
+        def shape(o):
+            def depth(c):
+                subs = c[3] + c[4] + c[5] + c[7]
+                return 1 + max([depth(x) for x in subs] or [0])
+            c = o['out']
+            return (min(len(c[3]), 3), min(len(c[4]), 3), min(len(c[5]), 3), min(len(c[6]), 4), min(len(c[7]), 3),
+                    min(len(c[8]), 4), min(depth(c), 5))
+        run.count('frombox-synth', len(kept), [shape(o) for _, o, _ in kept],
+                  samples=[{'tree': kept[0][0], 'out': kept[0][1]['out']}] if kept else [])
+        run.stream_info('frombox-synth', wellformed=sum(1 for m in masks if not m & 4),
+                        rule='random trees (<= 40 boxes, depth <= 6) of 19 real box classes built without layout, any '
+                             'class under any class, position/z-index/opacity/transform/overflow/float/grid-item at '
+                             'random, AbsolutePlaceholder wrappers; distinct = (|neg|,|zero|,|pos|,|blocks|,|floats|,'
+                             '|blocks_and_cells|, nesting depth) of the root context')
+    except RuntimeError as exc:
+        run.oblige('corr:frombox-synth', False, str(exc))
+
+    # ------------------------------------------------- streams 2-4: documents -> from_page tie, monitors A and B
+    n_docs = 1500 if thorough else 160
+    docs = []
+    for k in range(n_docs):
+        prof = 'strict' if k % 4 == 0 else 'full'
+        html, feats, n_el = gen_doc(rng, prof)
+        docs.append(dict(html=html, features=feats, profile=prof))
+    for name, body in sorted(WITNESSES.items()):
+        docs.append(dict(html='<html id="e0">%s<body id="e1">%s</body></html>' % (WITNESS_CSS, body), features=['witness:' + name],
+                         profile='witness', witness=name))
+    outs = common.run_impl('p_c17', 'judge_doc', [{'html': d['html']} for d in docs], limit=120, chunksize=2)
+    page_cases, disp_cases, meta = [], [], []
+    clauses = {}
+    feats_seen = set()
+    n_items = n_tokens = n_pages = 0
+    witness_hits = {}
+    for d, (st, o) in zip(docs, outs):
+        if st == 'timeout':
+            run.fail('render timeout', {'stream': 'display', 'html': d['html']}, signature='timeout')
+            continue
+        if st == 'exc':
+            run.fail('render / judge raised %s at %s' % (o['type'], o['site']), {'stream': 'display', 'html': d['html'], 'exc': o},
+                     signature='crash:%s' % (o['site'],))
+            continue
+        for p in o['problems']:
+            run.fail('display list: %s' % p, {'stream': 'display', 'html': d['html']})
+        feats_seen.update(d['features'])
+        for pi, pg in enumerate(o['pages']):
+            n_pages += 1
+            n_items += pg['nitems']
+            n_tokens += pg['ntokens']
+            seen_clause = set()
+            for clause, n, detail, desc in pg['bad']:
+                clauses[clause] = clauses.get(clause, 0) + 1
+                if d.get('witness') and clause == 'paint-order:' + d['witness']:
+                    witness_hits[d['witness']] = True
+                if clause in seen_clause:
+                    continue
+                seen_clause.add(clause)
+                fail_signed(run, '%s: %s %s' % (clause, desc, detail),
+                            {'stream': 'display', 'html': d['html'], 'page': pi, 'clause': clause, 'box': n, 'detail': detail},
+                            clause)
+            nodes = pg['nodes']
+            if not pg['identity']:
+                run.oblige('corr:frompage-identity', False, d['html'][:2000])
+            bits = bits_term([(i['kind'], i['bits']) for i, _ in nodes])
+            page_cases.append('(%s, %s, %s)' % (box_term(nodes), pnode_term(nodes, pg['out']), bits))
+            tm, ts = ink_tables(pg)
+            observed = [idx for kind, idx in pg['observed'][pg['head']:] if kind in ('fill', 'text')]
+            disp_cases.append('(%s, %s, %s, [%s])' % (box_term(nodes), tm, ts,
+                                                       '; '.join(str(-7 if v is None else v) for v in observed)))
+            meta.append((d, pi, pg))
+    for name in WITNESSES:
+        run.oblige('witness:%s reproduces on the implementation' % name, witness_hits.get(name, False),
+                   'the refuted theorem of props/C17.v no longer shows on /repo (fixed?) - update model and spec')
+    try:
+        masks = common.eval_cases('c17page', PRE, 'box * pnode * list (kind * Z)', page_cases, 'frompage_judge2', per_file=12)
+        mism = [m_ for m_, k in zip(meta, masks) if k & 1]
+        run.oblige('corr:frompage-render(model from_page = StackingContext.from_page on rendered trees)', not mism,
+                   'first disagreement: %s' % (mism[0][0]['html'][:2500] if mism else ''))
+        for (d, pi, pg), k in zip(meta, masks):
+            if k & 2:
+                run.fail('paint list of the real contexts differs from Appendix E on a well-formed rendered tree',
+                         {'stream': 'frompage-render', 'html': d['html'], 'page': pi})
+                break
+        once_bad = [(m_, c) for m_, c, k in zip(meta, page_cases, masks) if k & 8]
+        if once_bad:
+            why = coq_why('c17once', [c for _, c in once_bad], 'once_why_page')
+            for ((d, pi, pg), _), codes in zip(once_bad, why or [None] * len(once_bad)):
+                lost_rows, lost_grid = expected_lost(pg['nodes'])
+                if codes is None:
+                    run.oblige('diag:once_why', False, 'cannot evaluate once_why_page')
+                    break
+                rest = [(b, c) for b, c in codes if not (c == 4 and (b in lost_rows or b in lost_grid))]
+                if rest:
+                    run.fail('a box is not painted exactly once (box, code): %s' % rest[:5],
+                             {'stream': 'frompage-render', 'html': d['html'], 'page': pi, 'codes': rest[:20]})
+                else:
+                    if any(b in lost_rows for b, c in codes):
+                        run.fail('table part painted as a context: backgrounds never painted (boxes %s)' % [b for b, _ in codes][:8],
+                                 {'stream': 'frompage-render', 'html': d['html'], 'page': pi},
+                                 signature='c17:table-part-context-background-lost')
+                    if any(b in lost_grid for b, c in codes):
+                        run.fail('grid container painted as a context: background never painted',
+                                 {'stream': 'frompage-render', 'html': d['html'], 'page': pi},
+                                 signature='c17:grid-context-background-lost')
+        run.count('frompage-render', len(page_cases),
+                  [(len(pg['nodes']) // 20, tuple(sorted(set(i['kind'] for i, _ in pg['nodes'])))) for _, _, pg in meta],
+                  samples=[meta[0][0]['html'][:800]] if meta else [])
+        run.stream_info('frompage-render', boxes=sum(len(pg['nodes']) for _, _, pg in meta),
+                        wellformed_pages=sum(1 for k in masks if not k & 4),
+                        rule='StackingContext.from_page on every page of the rendered documents below; whole structure '
+                             '(children, three z buckets, blocks, floats, blocks_and_cells, z) compared with the model; '
+                             'on well-formed pages the paint list of the real structure must equal Appendix E; every '
+                             'box painted exactly once (judged in Coq)')
+    except RuntimeError as exc:
+        run.oblige('corr:frompage-render', False, str(exc))
+    try:
+        masks = common.eval_cases('c17disp', PRE, 'box * list (Z * (Z * Z * Z)) * list (Z * (Z * Z * Z)) * list Z', disp_cases,
+                                  'display_judge', per_file=12)
+        mism = [m_ for m_, k in zip(meta, masks) if k & 1]
+        run.oblige('corr:display(colour sequence of the content stream = paint list of the model)', not mism,
+                   'first disagreement: %s' % (mism[0][0]['html'][:2500] if mism else ''))
+        for (d, pi, pg), k in zip(meta, masks):
+            if k & 2:
+                # the Python reference judged the same page: its classification (if any) was reported above
+                cl = [c for c, _, _, _ in pg['bad'] if c.startswith('paint-order')]
+                if not cl:
+                    run.fail('colour sequence differs from the Coq Appendix E order on a well-formed page',
+                             {'stream': 'display', 'html': d['html'], 'page': pi})
+        run.stream_info('display', coq_spec_pages=sum(1 for k in masks if not k & 4))
+    except RuntimeError as exc:
+        run.oblige('corr:display', False, str(exc))
+    run.count('display', n_pages, [tuple(d['features']) for d in docs],
+              samples=[docs[0]['html'][:800]])
+    run.stream_info('display', items=n_items, paints=n_tokens, features=sorted(feats_seen), clauses=clauses,
+                    rule='random documents (blocks, inlines, inline-blocks, floats, tables, relative/absolute/fixed boxes; '
+                         'z-index in {auto,-2..3} also on static boxes, opacity, transforms incl. scale(0), overflow:hidden, '
+                         'visibility, background-clip, borders; contexts nested to depth 4; every element has its own '
+                         'background / text / border colour), 1 in 4 without the features of the known defects. The page '
+                         'content stream and its form XObjects are interpreted into fills / strokes / text shows with '
+                         'CTM, colour, alpha, clip stack; the colour sequence must equal (exactly, with multiplicities) '
+                         'the Appendix E reference in Python, and (deduplicated) the Coq model and the Coq specification; '
+                         'each item is judged geometrically (background rectangle per background-clip, border ring and '
+                         'side clips, text origin / matrix / font size / ToUnicode text, opacity product, overflow clips '
+                         'along the containing-block chain)')
+
+
+def replay(data):
+    d = data.get('data', {})
+    if d.get('stream') in ('display', 'frompage-render') and d.get('html'):
+        (st, o), = common.run_impl('p_c17', 'judge_doc', [{'html': d['html']}], limit=120)
+        if st != 'ok':
+            print('replay:', st, o)
+            return 1
+        bad = [b for pg in o['pages'] for b in pg['bad']]
+        for b in bad[:10]:
+            print('replay:', b[0], b[3], b[2][:300])
+        cases = []
+        for pg in o['pages']:
+            nodes = pg['nodes']
+            cases.append('(%s, %s, %s)' % (box_term(nodes), pnode_term(nodes, pg['out']),
+                                            bits_term([(i['kind'], i['bits']) for i, _ in nodes])))
+        masks = common.eval_cases('c17replay', PRE, 'box * pnode * list (kind * Z)', cases, 'frompage_judge2', per_file=12)
+        print('replay: Coq masks per page (1 model<>impl, 2 spec<>paint, 4 not well-formed, 8 not painted once):', masks)
+        return 1 if bad or any(m & 11 for m in masks) else 0
+    if d.get('stream') == 'frombox-synth':
+        (st, o), = common.run_impl('impl_c17', 'stacking_synth', [{'tree': d['tree']}])
+        print('replay:', st, o if st != 'ok' else o['out'])
+        if st != 'ok':
+            return 1
+        nodes = synth_nodes(d['tree'])
+        kinds = {c: k for c, k, _ in SYNTH_CLASSES}
+        m = common.eval_cases('c17replay', PRE, 'box * pnode * list (kind * Z)',
+                              ['(%s, %s, %s)' % (box_term(nodes), pnode_term(nodes, o['out']),
+                                                 bits_term([(kinds[c], b) for c, b in o['bits'].items()]))], 'frombox_judge')
+        print('replay: mask', m)
+        return 1 if m[0] & 3 else 0
+    print('nothing to replay for', d.get('stream'))
+    return 0
